@@ -1120,10 +1120,24 @@ func blankAssign(x ast.Expr) ast.Stmt {
 	return &ast.AssignStmt{Lhs: []ast.Expr{ident("_", x.Pos())}, TokPos: x.Pos(), Tok: token.ASSIGN, Rhs: []ast.Expr{x}}
 }
 
+// setPos gives every position inside a synthesised (parsed from a string) expression the position of the
+// place it is pasted at: the type checker looks positions up in the package's files (language version
+// checks), and the small positions a free-standing parse produces belong to some other file of the set.
 func setPos(e ast.Expr, pos token.Pos) {
+	posType := reflect.TypeOf(token.NoPos)
 	ast.Inspect(e, func(x ast.Node) bool {
-		if id, ok := x.(*ast.Ident); ok {
-			id.NamePos = pos
+		if x == nil {
+			return true
+		}
+		v := reflect.ValueOf(x)
+		if v.Kind() == reflect.Ptr && !v.IsNil() && v.Elem().Kind() == reflect.Struct {
+			sv := v.Elem()
+			for i := 0; i < sv.NumField(); i++ {
+				f := sv.Field(i)
+				if f.Type() == posType && f.CanSet() && f.Int() != 0 {
+					f.SetInt(int64(pos))
+				}
+			}
 		}
 		return true
 	})
@@ -1798,8 +1812,16 @@ func normalizeOne(p *packages.Package, fset *token.FileSet, gen func(token.Pos) 
 		}
 	}
 	addImports(p)
-	check := func() (*types.Package, *types.Info, []types.Error) {
-		var errs []types.Error
+	panicked := false
+	check := func() (tpkg *types.Package, tinfo *types.Info, errs []types.Error) {
+		// a pasted construct the type checker cannot even look at (it panics on inconsistent positions):
+		// treated like a type error everywhere — every expansion of this package is taken back
+		defer func() {
+			if r := recover(); r != nil {
+				panicked = true
+				errs = append(errs, types.Error{Fset: fset, Msg: fmt.Sprintf("type checker panic: %v", r)})
+			}
+		}()
 		conf := &types.Config{Importer: imp, Sizes: p.TypesSizes, Error: func(err error) {
 			if te, ok := err.(types.Error); ok {
 				errs = append(errs, te)
@@ -1825,6 +1847,20 @@ func normalizeOne(p *packages.Package, fset *token.FileSet, gen func(token.Pos) 
 	for round := 0; len(errs) > 0 && round < 4; round++ {
 		// revert the functions that contain an error position (or, failing that, everything)
 		reverted := 0
+		if panicked {
+			panicked = false
+			for i := range changes {
+				ch := &changes[i]
+				if ch.old != nil {
+					ch.file.Decls[ch.idx] = ch.old
+					ch.old = nil
+					reverted++
+					stats.Reverted++
+				}
+			}
+			tp, info, errs = check()
+			continue
+		}
 		for i := range changes {
 			ch := &changes[i]
 			if ch.old == nil {
